@@ -159,6 +159,121 @@ def run_children(cases, seeds, repo=None, parallel=CHILD_PARALLEL):
     return out
 
 
+# ---- owning set iteration order INSIDE the obfuscators ----------------------------------------
+
+INSIDE_MODULES = ("hostname", "ip", "keyword", "mac", "password", "pattern", "filters", "utilities")
+INSIDE_MAX_N = 5          # a set of up to 5 elements is iterated in every one of its n! orders
+
+
+class SetSchedule(object):
+    """Choice sequence of one execution: the j-th *distinct content* that is iterated as a set takes the
+    prefix[j]-th permutation (lexicographic over the canonically sorted elements), 0 beyond the prefix.
+    Sets with equal content iterate identically within one execution and a set keeps its order while it
+    is not modified - as in CPython - so nothing is explored that no interpreter could do for that reason."""
+
+    def __init__(self, prefix=()):
+        self.prefix = list(prefix)
+        self.trace = []           # [(chosen, number of options)]
+        self.by_content = {}
+        self.too_big = 0
+
+    def choose(self, key, nopt):
+        if key in self.by_content:
+            return self.by_content[key]
+        i = len(self.trace)
+        c = self.prefix[i] if i < len(self.prefix) else 0
+        if c >= nopt:
+            raise RuntimeError("set schedule diverged: choice %d of %d options at point %d" % (c, nopt, i))
+        self.trace.append((c, nopt))
+        self.by_content[key] = c
+        return c
+
+
+def _canon(x):
+    return (type(x).__name__, repr(x))
+
+
+def make_set_type(sched):
+    import itertools
+    import math
+
+    class PermSet(set):
+        """Stand-in for the builtin `set` as seen by the cleaner modules: a real set (subclass), whose
+        iteration order is the permutation the schedule chooses for its content."""
+
+        def __iter__(self):
+            n = set.__len__(self)
+            if n < 2:
+                return set.__iter__(self)
+            items = sorted(set.__iter__(self), key=_canon)
+            if n > INSIDE_MAX_N:
+                sched.too_big += 1
+                return iter(items)
+            k = sched.choose(tuple(_canon(x) for x in items), math.factorial(n))
+            return iter(next(itertools.islice(itertools.permutations(items), k, None)))
+
+    def keep_type(name):
+        base = getattr(set, name)
+
+        def method(self, *a):
+            r = base(self, *a)
+            return PermSet(r) if type(r) is set else r
+        method.__name__ = name
+        return method
+
+    for name in ("__sub__", "__rsub__", "__or__", "__ror__", "__and__", "__rand__", "__xor__", "__rxor__",
+                 "difference", "union", "intersection", "symmetric_difference", "copy"):
+        setattr(PermSet, name, keep_type(name))
+    return PermSet
+
+
+def run_inside(case, prefix=()):
+    """Fresh cleaner with plain keys (the obfuscator order is whatever the code and this interpreter give),
+    while the name `set` in insights.cleaner.{hostname, ip, keyword, mac, ...} is the schedule-driven
+    stand-in.  Returns {"out", "trace": [(choice, options)], "too_big"}."""
+    import importlib
+    sched = SetSchedule(prefix)
+    stand_in = make_set_type(sched)
+    mods = [importlib.import_module("insights.cleaner." + m) for m in INSIDE_MODULES]
+    for m in mods:
+        if "set" in m.__dict__:
+            raise RuntimeError("%s already defines a global named set" % m.__name__)
+    try:
+        for m in mods:
+            m.set = stand_in
+        c = build_cleaner(case)
+        out = c.clean_content(list(case["lines"]), no_obfuscate=list(case.get("no_obfuscate") or []),
+                              width=bool(case.get("width")))
+    finally:
+        for m in mods:
+            m.__dict__.pop("set", None)
+    if len(sched.trace) < len(sched.prefix):
+        raise RuntimeError("set schedule prefix %r longer than the execution's %d choice points" % (sched.prefix, len(sched.trace)))
+    return {"out": out, "trace": [list(t) for t in sched.trace], "too_big": sched.too_big}
+
+
+def explore_inside(case, cap=3000):
+    """Stateless depth-first exploration of every set schedule of one case.
+    Returns (runs = [{"choices", "out", "trace"}], complete: bool)."""
+    runs = []
+    stack = [[]]
+    complete = True
+    while stack:
+        if len(runs) >= cap:
+            complete = False
+            break
+        prefix = stack.pop()
+        r = run_inside(case, prefix)
+        choices = [c for c, _ in r["trace"]]
+        if r["too_big"]:
+            complete = False
+        runs.append({"choices": choices, "out": r["out"], "trace": r["trace"]})
+        for j in range(len(r["trace"]) - 1, len(prefix) - 1, -1):
+            for c in range(r["trace"][j][1] - 1, 0, -1):
+                stack.append(choices[:j] + [c])
+    return runs, complete
+
+
 # ---- part B scaffolding ------------------------------------------------------------------------
 
 _SPECS = None
